@@ -217,6 +217,35 @@ func checkC10(e *Env) {
 	})
 
 	// the concurrent flavour of this monitor (C12 is the full treatment)
+	// histories with the other functions' calls in between: within one process, validations
+	// under the same language of strings with equal NFKD forms must agree
+	histCalls := e.runHistories(drv, "C10", e.pick(24, 300), 3, func(ops []plan.Op, res []plan.Res) {
+		type seenV struct {
+			i   int
+			acc bool
+		}
+		first := map[string]seenV{}
+		for i := range res {
+			op := &ops[i]
+			if (op.Fn != "chk" && op.Fn != "val") || !supportedLang(op.L) || res[i].Panic != "" {
+				continue
+			}
+			n, ok := e.NFKD([]string{op.Str()})
+			if !ok[0] || !u.InDomain(op.Str(), maxRun) {
+				continue
+			}
+			acc := acceptedBy(op, &res[i])
+			key := itoa(int(op.L)) + "\x00" + n[0]
+			if f, seen := first[key]; !seen {
+				first[key] = seenV{i, acc}
+			} else if f.acc != acc {
+				e.Violate(&Violation{What: fmt.Sprintf("within one process two spellings with the same NFKD form get different verdicts under %s: %s is %s (call %d) but %s is %s (call %d)", ref.Names[op.L], preview(ops[f.i].Str()), accWord(f.acc), f.i, preview(op.Str()), accWord(acc), i),
+					Ops: ops[:i+1], Expected: "same verdict", Observed: res[i], Detail: historyNote})
+				return
+			}
+		}
+	})
+	kinds.Add("calls_inside_cross_function_histories", histCalls)
 	concCalls := e.concurrentSmoke(drv, "C10", e.smokePool("C10", "chk"), e.pick(2, 12), e.pick(300, 1500), e.smokeAgree("chk"))
 
 	// coverage of (language, word, form) triples whose spelling is non-trivial
